@@ -37,6 +37,46 @@ theorem readonly_is_noop : C17_readonly_is_noop := by
   unfold step
   rw [exec_ro hr, view_purge]
 
+/-! ### soundness of the read-only classification table
+
+`isReadOnly` is the model's copy of the table in `Command::is_read_only` (src/redis/command.rs);
+the harness compares the two on every generated command, so a changed table entry surfaces as a
+correspondence disagreement on the `ro=` field, and the sweep oracle of harness/src/c17.rs turns
+it into a concrete command + state whenever the entry is unsound. -/
+
+/-- full statement, for an arbitrary classification table `ro`: whatever the table calls
+    read-only returns the very state it was given (not merely an equivalent view) -/
+def C17_readonly_classification_sound (ro : Cmd → Bool) : Prop :=
+  ∀ c : Cmd, ro c = true → ∀ (s : State) (now : Nat), (exec s now c).1 = s
+
+/-- the table in force is sound -/
+theorem readonly_classification_sound : C17_readonly_classification_sound isReadOnly :=
+  fun _ h _ _ => exec_ro h
+
+/-- the table of the seeded change "GETEX without an expiry option is a plain GET": the pattern
+    `GetEx { ex: None, px: None, exat: None, pxat: None, .. }` swallows `persist`, so both
+    `GETEX k` and `GETEX k PERSIST` become read-only -/
+def isReadOnlySeeded : Cmd → Bool
+  | .getex _ .none => true
+  | .getex _ .persist => true
+  | c => isReadOnly c
+
+/-- … and that table is NOT sound: `SET s v PX 5000; GETEX s PERSIST` drops the deadline -/
+theorem readonly_classification_counterexample :
+    ¬ C17_readonly_classification_sound isReadOnlySeeded := by
+  intro h
+  have := h (.getex 1 .persist) rfl [(1, ⟨.str [118], some 6000⟩)] 1000
+  revert this
+  decide
+
+/-- the other half of the seeded entry (GETEX with no option at all) would have been sound -/
+theorem getex_without_option_is_noop (s : State) (now k : Nat) : (exec s now (.getex k .none)).1 = s := by
+  simp only [exec, execGetEx]
+  split
+  · rfl
+  · rfl
+  · simp [getExPlan]
+
 /-- "…and all TTLs exactly as they were": nothing changes at any LATER instant either -/
 theorem error_is_noop_future (s : State) (now t : Nat) (c : Cmd) (ht : now ≤ t)
     (he : (step s now c).2.isError = true) : view (step s now c).1 t = view s t := by
